@@ -38,13 +38,17 @@ def run(req_path, tier, seed):
     for depth in (60, 150, 300):
         picked.append([{"path": "deep_expr.rs", "text": "#[tauri::command]\npub fn deep() -> i32 {\n    %s1%s\n}\n" % ("(" * depth, ")" * depth)},
                        {"path": "deep_type.rs", "text": "#[tauri::command]\npub fn deep_ty(x: %su8%s) {}\n" % ("Vec<" * min(depth, 120), ">" * min(depth, 120))}])
+    # corpus: projects on which a seeded change once made the CLI panic for a reason no generator reaches by chance (here: a
+    # project whose digest of the discovered events happens to be numerically tiny - one in 2^28 documents)
+    picked.append([{"path": "src/lib.rs", "alone": True, "text": "use tauri::{AppHandle, Emitter};\n\n#[tauri::command]\npub fn queue_render(app: AppHandle, path: String) -> Result<(), String> {\n    app.emit(\"media-queued-render-job\", path).map_err(|e| e.to_string())\n}\n"}])
     fails, n = [], 0
     hist = {}
     for idx, files in enumerate(picked):
         d = proc.sandbox("c15cli")
         try:
             fs = {os.path.join("src-tauri", f["path"]): f["text"] for f in files}
-            fs[os.path.join("src-tauri", "good_fixed.rs")] = _good()
+            if not any(f.get("alone") for f in files):
+                fs[os.path.join("src-tauri", "good_fixed.rs")] = _good()
             proc.write_files(d, fs)
             for lib in ("none", "zod"):
                 # the project / output directory under the spellings a user types (trailing and doubled separators,
